@@ -3,6 +3,7 @@
    CryptoProofs.ctr involution); no other property of the cipher is used. *)
 From Coq Require Import ZArith NArith List Bool Lia.
 Require Import Value Bytes BytesProofs MbiMixinModel GenMbi MbiModel MbiProofs MbiRtProofs MbiKindsProofs.
+Require Modes CryptoProofs.
 Import ListNotations.
 Ltac Zify.zify_post_hook ::= Z.to_euclidean_division_equations.
 Local Open Scope Z_scope.
@@ -263,3 +264,74 @@ Proof.
   assert (CL : clean_ivt app' = clean_ivt (m_app x)) by (eapply clean_update; eassumption).
   rewrite CL, pad4_id by (rewrite clean_ivt_length; assumption). reflexivity.
 Qed.
+
+Lemma wf_enc_ivt c : wf_enc c = true -> has_attr c AIvtTable = true.
+Proof. intros W. unfold wf_enc in W. wf_split W. assumption. Qed.
+
+Lemma roundtrip_enc_full :
+  forall (k : crypto) (c : mbi_class) (x : mbi) (tzsize sigsz : nat) (dek : option (list N)) (im pre post : list N) (sg : nat),
+    wf_enc c = true ->
+    (56 <= length (m_app x))%nat -> (length (m_app x) mod 4 = 0)%nat ->
+    0 <= m_subtype x < 4 -> 0 <= m_imgver x < 65536 ->
+    m_cert x = Some (CertV1 pre post sg) -> cert1_wf pre post -> sigsz = sg -> (0 < sg)%nat ->
+    (forall d, length (k_sign k d) = sg) -> (forall key data, length (k_hmac k key data) = 32%nat) ->
+    (forall key dv iv d, length (k_ctr k key dv iv d) = length d) ->
+    (forall key dv iv d, k_ctr k key dv iv (k_ctr k key dv iv d) = d) ->
+    (forall b, m_ks x = Some b -> length b = 1424%nat /\ has_attr c AKeyStore = true) ->
+    (forall d, m_tz x = TzCustom d -> length d = tzsize /\ (0 < tzsize)%nat) ->
+    (forall es, m_table x = Some es -> has_attr c AAppTable = true /\ entries_ok es) ->
+    dek = m_hmac x ->
+    export_mbi k c x = Ok im ->
+    parse_mbi k c tzsize sigsz dek im = Ok (parsed c x dek) /\
+    (canonical c x dek -> parsed c x dek = set_app x (clean_ivt (m_app x)) /\ export_mbi k c (parsed c x dek) = Ok im).
+Proof.
+  intros. split; [eapply roundtrip_enc; eassumption|].
+  intros C. split; [now apply parsed_canonical | apply reexport_parsed; auto using wf_enc_ivt].
+Qed.
+
+(* ------------------------------------------------------------------ the cipher instantiated: CTR mode (coq/Crypto/Modes.v)
+   over ANY block function with 16-byte output.  Length preservation and involution are theorems of CTR mode
+   (CryptoProofs.ctr_length, ctr_involutive_l): nothing is assumed about the block cipher itself.
+   (An IV that is not 16 bytes long is refused by mix_validate before any encryption; ctr_of is the identity there.) *)
+Definition ctr_of (F : list N -> bool -> list N -> list N) (key : list N) (dv : bool) (iv d : list N) : list N :=
+  if Nat.eqb (length iv) 16 then Modes.ctr_xcrypt (F key dv) iv d else d.
+
+Lemma ctr_of_length F : (forall key dv b, length b = 16%nat -> length (F key dv b) = 16%nat) ->
+  forall key dv iv d, length (ctr_of F key dv iv d) = length d.
+Proof.
+  intros HF key dv iv d. unfold ctr_of. destruct (Nat.eqb (length iv) 16) eqn:E; [|reflexivity].
+  apply Nat.eqb_eq in E. apply CryptoProofs.ctr_length; [apply HF | exact E].
+Qed.
+Lemma ctr_of_involutive F : (forall key dv b, length b = 16%nat -> length (F key dv b) = 16%nat) ->
+  forall key dv iv d, ctr_of F key dv iv (ctr_of F key dv iv d) = d.
+Proof.
+  intros HF key dv iv d. unfold ctr_of. destruct (Nat.eqb (length iv) 16) eqn:E; [|reflexivity].
+  apply Nat.eqb_eq in E. apply CryptoProofs.ctr_involutive_l; [apply HF | exact E].
+Qed.
+
+Theorem roundtrip_enc_ctr :
+  forall (F : list N -> bool -> list N -> list N) (k : crypto) (c : mbi_class) (x : mbi) (tzsize sigsz : nat)
+         (dek : option (list N)) (im pre post : list N) (sg : nat),
+    k_ctr k = ctr_of F -> (forall key dv b, length b = 16%nat -> length (F key dv b) = 16%nat) ->
+    wf_enc c = true ->
+    (56 <= length (m_app x))%nat -> (length (m_app x) mod 4 = 0)%nat ->
+    0 <= m_subtype x < 4 -> 0 <= m_imgver x < 65536 ->
+    m_cert x = Some (CertV1 pre post sg) -> cert1_wf pre post -> sigsz = sg -> (0 < sg)%nat ->
+    (forall d, length (k_sign k d) = sg) -> (forall key data, length (k_hmac k key data) = 32%nat) ->
+    (forall b, m_ks x = Some b -> length b = 1424%nat /\ has_attr c AKeyStore = true) ->
+    (forall d, m_tz x = TzCustom d -> length d = tzsize /\ (0 < tzsize)%nat) ->
+    (forall es, m_table x = Some es -> has_attr c AAppTable = true /\ entries_ok es) ->
+    dek = m_hmac x ->
+    export_mbi k c x = Ok im ->
+    parse_mbi k c tzsize sigsz dek im = Ok (parsed c x dek).
+Proof.
+  intros F k c x tzsize sigsz dek im pre post sg HK HF. intros.
+  eapply roundtrip_enc; try eassumption; rewrite HK; [apply ctr_of_length | apply ctr_of_involutive]; exact HF.
+Qed.
+
+(* the hypotheses are satisfiable: the encrypted class of the database (mimxrt5xx/6xx load-to-RAM, encrypted) *)
+Example wf_enc_instance :
+  wf_enc {| c_type := 3; c_mixins := [MixinApp; MixinRelocTable; MixinLoadAddress; MixinIvt; MixinTrustZone; MixinCertBlockV1; MixinHwKey;
+                                      MixinKeyStore; MixinHmacMandatory; MixinCtrInitVector; ExportMixinAppTrustZoneCertBlockEncrypt;
+                                      ExportMixinRsaSign; ExportMixinHmacKeyStoreFinalize] |} = true.
+Proof. vm_compute. reflexivity. Qed.
